@@ -77,6 +77,7 @@ func main() {
 	genARP(cl, rng.Fork(), scale)
 	genICMP4(cl, rng.Fork(), scale)
 	genICMP6(cl, rng.Fork(), scale)
+	genCrossICMP(cl, rng.Fork(), scale)
 	genDHCP4(cl, rng.Fork(), scale)
 	genDNSProc(cl, rng.Fork(), scale)
 	genLLMNR(cl, rng.Fork(), scale)
